@@ -52,15 +52,40 @@ static void cr_release (void)
 static int cr_reading (void)
 {
   return MHD_CONNECTION_INIT == rcon.state || MHD_CONNECTION_REQ_LINE_RECEIVING == rcon.state
-         || MHD_CONNECTION_REQ_HEADERS_RECEIVING == rcon.state;
+         || MHD_CONNECTION_REQ_HEADERS_RECEIVING == rcon.state || MHD_CONNECTION_BODY_RECEIVING == rcon.state
+         || MHD_CONNECTION_FOOTERS_RECEIVING == rcon.state;
 }
 
-/* the `while` loop of MHD_connection_handle_idle over the receiving states, then what
-   MHD_connection_update_event_loop_info does for a connection that has to read */
+/* scripted access handler: take pattern (bytes taken per call, indexed by the call number within the request);
+   the final call (no upload data, not the first call) queues an empty reply */
+static size_t cr_pat[64]; static size_t cr_npat; static size_t cr_calls; static int cr_marker; static int cr_cookie_stop;
+static enum MHD_Result cr_handler (void *cls, struct MHD_Connection *c, const char *url, const char *method, const char *version,
+                                   const char *upload_data, size_t *upload_data_size, void **con_cls)
+{
+  (void) cls; (void) url; (void) method; (void) version; (void) upload_data;
+  if (NULL == *con_cls) { *con_cls = &cr_marker; cr_calls = 1; return MHD_YES; }
+  if (0 != *upload_data_size)
+  {
+    size_t n = *upload_data_size, t = (0 == cr_npat) ? n : cr_pat[cr_calls % cr_npat];
+    if (t > n) t = n;
+    *upload_data_size = n - t; cr_calls++;
+    return MHD_YES;
+  }
+  {
+    struct MHD_Response *r = MHD_create_response_from_buffer_static (0, "");
+    enum MHD_Result q = MHD_queue_response (c, MHD_HTTP_OK, r);
+    MHD_destroy_response (r);
+    return q;
+  }
+}
+
+/* the `while` loop of MHD_connection_handle_idle over the receiving states (each case as there), the reply taken
+   as sent at once (connection_switch_from_recv_to_send, keepalive_possible, connection_reset), then
+   MHD_connection_update_event_loop_info */
 static void cr_idle (void)
 {
   rcon.in_idle = true;   /* as MHD_connection_handle_idle does (MHD_queue_response must not re-enter it) */
-  while (1)
+  while (! cr_cookie_stop)
   {
     switch (rcon.state)
     {
@@ -74,31 +99,88 @@ static void cr_idle (void)
     case MHD_CONNECTION_REQ_HEADERS_RECEIVING:
       if (get_req_headers (&rcon, false)) continue;
       break;
+    case MHD_CONNECTION_HEADERS_RECEIVED:
+      if (NULL != MHD_lookup_connection_value (&rcon, MHD_HEADER_KIND, "Cookie")) { cr_cookie_stop = 1; break; }
+      parse_connection_headers (&rcon);
+      if (MHD_CONNECTION_HEADERS_RECEIVED != rcon.state) continue;
+      rcon.state = MHD_CONNECTION_HEADERS_PROCESSED;
+      continue;
+    case MHD_CONNECTION_HEADERS_PROCESSED:
+      call_connection_handler (&rcon);
+      if (MHD_CONNECTION_HEADERS_PROCESSED != rcon.state) continue;
+      /* "100 Continue" is not part of this engine (the generated requests carry no Expect field) */
+      rcon.state = (0 == rcon.rq.remaining_upload_size) ? MHD_CONNECTION_FULL_REQ_RECEIVED : MHD_CONNECTION_BODY_RECEIVING;
+      continue;
+    case MHD_CONNECTION_BODY_RECEIVING:
+      if (0 != rcon.read_buffer_offset)
+      {
+        process_request_body (&rcon);
+        if (MHD_CONNECTION_BODY_RECEIVING != rcon.state) continue;
+      }
+      if (0 == rcon.rq.remaining_upload_size) { rcon.state = MHD_CONNECTION_BODY_RECEIVED; continue; }
+      break;
+    case MHD_CONNECTION_BODY_RECEIVED:
+      if (rcon.rq.have_chunked_upload)
+      {
+        rcon.rq.num_cr_sp_replaced = 0; rcon.rq.skipped_broken_lines = 0;
+        reset_rq_header_processing_state (&rcon);
+        rcon.state = MHD_CONNECTION_FOOTERS_RECEIVING;
+      }
+      else rcon.state = MHD_CONNECTION_FULL_REQ_RECEIVED;
+      continue;
+    case MHD_CONNECTION_FOOTERS_RECEIVING:
+      if (get_req_headers (&rcon, true)) continue;
+      break;
+    case MHD_CONNECTION_FOOTERS_RECEIVED:
+      rcon.state = MHD_CONNECTION_FULL_REQ_RECEIVED;
+      continue;
+    case MHD_CONNECTION_FULL_REQ_RECEIVED:
+      call_connection_handler (&rcon);
+      if (MHD_CONNECTION_FULL_REQ_RECEIVED != rcon.state) continue;
+      if (NULL == rcon.rp.response) break;
+      /* MHD_CONNECTION_START_REPLY … FULL_REPLY_SENT, the reply taken as sent */
+      connection_switch_from_recv_to_send (&rcon);
+      rcon.keepalive = keepalive_possible (&rcon);
+      connection_reset (&rcon, MHD_CONN_USE_KEEPALIVE == rcon.keepalive && ! rcon.read_closed && ! rcon.discard_request);
+      continue;
     default:
       break;
     }
     break;
   }
   if (cr_reading ())
-  {
-    rcon.event_loop_info = MHD_EVENT_LOOP_INFO_READ;
-    (void) check_and_grow_read_buffer_space (&rcon);
-  }
+    MHD_connection_update_event_loop_info (&rcon);
   rcon.in_idle = false;
 }
 
 static void cr_show (void)
 {
-  if (cr_reading () || MHD_CONNECTION_HEADERS_RECEIVED == rcon.state)
+  const char *ph = NULL;
+  switch (rcon.state)
+  {
+  case MHD_CONNECTION_INIT: case MHD_CONNECTION_REQ_LINE_RECEIVING: ph = "line"; break;
+  case MHD_CONNECTION_REQ_HEADERS_RECEIVING: ph = "hdrs"; break;
+  case MHD_CONNECTION_HEADERS_RECEIVED: ph = "done"; break;
+  case MHD_CONNECTION_BODY_RECEIVING: ph = "body"; break;
+  case MHD_CONNECTION_FOOTERS_RECEIVING: ph = "foot"; break;
+  default: break;
+  }
+  if (NULL != ph && NULL != rcon.pool)
   {
     struct MemoryPoolView *pv = (struct MemoryPoolView *) rcon.pool;
     size_t ne = 0; struct MHD_HTTP_Req_Header *h;
-    for (h = rcon.rq.headers_received; NULL != h; h = h->next) ne++;
-    printf ("ph=%s ", MHD_CONNECTION_HEADERS_RECEIVED == rcon.state ? "done"
-            : (MHD_CONNECTION_REQ_HEADERS_RECEIVING == rcon.state ? "hdrs" : "line"));
+    if (MHD_CONNECTION_BODY_RECEIVING != rcon.state && MHD_CONNECTION_FOOTERS_RECEIVING != rcon.state)
+      for (h = rcon.rq.headers_received; NULL != h; h = h->next) ne++;
+    printf ("ph=%s ", ph);
     if (NULL == rcon.read_buffer) printf ("rb=null "); else printf ("rb=%zu ", (size_t) ((uint8_t *) rcon.read_buffer - pv->memory));
     printf ("rbs=%zu rbo=%zu pos=%zu end=%zu ne=%zu sync=1 win=", rcon.read_buffer_size, rcon.read_buffer_offset, pv->pos, pv->end, ne);
     if (0 == rcon.read_buffer_offset) putchar ('-'); else lp_puthex (stdout, rcon.read_buffer, rcon.read_buffer_offset);
+    if (MHD_CONNECTION_BODY_RECEIVING == rcon.state)
+    {
+      if (rcon.rq.have_chunked_upload) printf (" rem=x"); else printf (" rem=%llu", (unsigned long long) rcon.rq.remaining_upload_size);
+      printf (" cur=%llu off=%llu ev=%d", (unsigned long long) rcon.rq.current_chunk_size, (unsigned long long) rcon.rq.current_chunk_offset,
+              0 != (MHD_EVENT_LOOP_INFO_READ & rcon.event_loop_info));
+    }
     putchar ('\n');
   }
   else if (MHD_CONNECTION_CLOSED == rcon.state || NULL == rcon.rp.response)
@@ -133,15 +215,21 @@ int main (void)
       printf ("ok "); st (); printf (" size=%zu\n", pv->size);
       continue;
     }
-    if (!strcmp (op, "crinit") && l.n == 4)
-    { /* crinit <pool_size> <pool_increment> <client_discipline> */
+    if (!strcmp (op, "crinit") && (l.n == 4 || l.n == 5))
+    { /* crinit <pool_size> <pool_increment> <client_discipline> [take pattern t0,t1,...] */
       char *endp; long lvl = strtol (l.w[3], &endp, 10);
       if (!(lp_u64 (l.w[1], &a) && lp_u64 (l.w[2], &b)) || a < 64 || a >= ((uint64_t) 1 << 40) || b >= ((uint64_t) 1 << 40)
           || *endp || lvl < -8 || lvl > 8) { puts ("bad-op"); continue; }
       cr_release ();
       memset (&rdmn, 0, sizeof(rdmn)); memset (&rcon, 0, sizeof(rcon));
       rdmn.pool_size = (size_t) a; rdmn.pool_increment = (size_t) b; rdmn.client_discipline = (int) lvl;
-      rdmn.unescape_callback = &h_unescape;
+      rdmn.unescape_callback = &h_unescape; rdmn.default_handler = &cr_handler;
+      cr_npat = 0; cr_calls = 0; cr_cookie_stop = 0;
+      if (5 == l.n)
+      {
+        char *q = l.w[4];
+        while (*q && cr_npat < 64) { cr_pat[cr_npat++] = (size_t) strtoull (q, &q, 10); if (',' == *q) q++; else break; }
+      }
       rcon.daemon = &rdmn; rcon.socket_fd = MHD_INVALID_SOCKET; rcon.state = MHD_CONNECTION_INIT;
       rcon.pool = MHD_pool_create (rdmn.pool_size);
       memset (((struct MemoryPoolView *) rcon.pool)->memory, 0, ((struct MemoryPoolView *) rcon.pool)->size);
@@ -153,13 +241,21 @@ int main (void)
     { /* crfeed <hex>: as MHD_connection_handle_read + MHD_connection_handle_idle do, as long as the connection reads */
       size_t len = 0, done = 0; uint8_t *bytes = lp_unhex (l.w[1], &len);
       if (NULL == bytes || 0 == rdmn.pool_size) { free (bytes); puts ("bad-op"); continue; }
-      while (done < len && cr_reading () && rcon.read_buffer_size > rcon.read_buffer_offset)
       {
-        size_t k = rcon.read_buffer_size - rcon.read_buffer_offset;
-        if (k > len - done) k = len - done;
-        memcpy (rcon.read_buffer + rcon.read_buffer_offset, bytes + done, k);   /* inside the window: ASan checks it */
-        rcon.read_buffer_offset += k; done += k;
-        cr_idle ();
+        size_t fuel = len + 1;
+        if (0 == len) { if (cr_reading ()) cr_idle (); }
+        else
+          while (fuel-- > 0 && done < len && cr_reading ())
+          {
+            if (0 != (MHD_EVENT_LOOP_INFO_READ & rcon.event_loop_info) && rcon.read_buffer_size > rcon.read_buffer_offset)
+            {
+              size_t k = rcon.read_buffer_size - rcon.read_buffer_offset;
+              if (k > len - done) k = len - done;
+              memcpy (rcon.read_buffer + rcon.read_buffer_offset, bytes + done, k);   /* inside the window: ASan checks it */
+              rcon.read_buffer_offset += k; done += k;
+            }
+            cr_idle ();
+          }
       }
       free (bytes);
       cr_show ();
@@ -240,6 +336,13 @@ int main (void)
         if (sending || NULL == con.read_buffer || rb_base + a > (size_t) ((uint8_t *) con.read_buffer - pv->memory)) { puts ("bad-op"); continue; }
         if (0 != con.read_buffer_offset) memmove (con.read_buffer - a, con.read_buffer, con.read_buffer_offset);
         con.read_buffer -= a; con.read_buffer_size += (size_t) a;
+        printf ("ok "); st (); putchar ('\n');
+      }
+      else if (!strcmp (op, "bodydrop") && l.n == 2 && lp_u64 (l.w[1], &a))
+      { /* the tail of process_request_body: the processed bytes leave the window front */
+        if (sending || NULL == con.read_buffer || a > con.read_buffer_offset) { puts ("bad-op"); continue; }
+        if (con.read_buffer_offset > a && 0 != a) memmove (con.read_buffer, con.read_buffer + a, con.read_buffer_offset - (size_t) a);
+        con.read_buffer_offset -= (size_t) a;
         printf ("ok "); st (); putchar ('\n');
       }
       else if (!strcmp (op, "alloc") && l.n == 2 && lp_u64 (l.w[1], &a))
